@@ -125,6 +125,8 @@ pub struct XStyles {
     pub cell_xfs: Vec<u32>,
     /// decoy: numFmtIds of cellStyleXfs (must not be consulted for cells)
     pub cell_style_xfs: Vec<u32>,
+    /// leave the optional numFmtId attribute out of cellXfs entries whose format is General (id 0, the schema default)
+    pub omit_general_numfmt: bool,
 }
 
 #[derive(Clone, Copy, Debug, PartialEq)]
@@ -345,7 +347,10 @@ pub fn styles_xml(st: &XStyles, enc: &XEnc) -> String {
         o.push_str(&tg.c("cellStyleXfs"));
     }
     o.push_str(&format!("{} count=\"{}\">", tg.o("cellXfs"), st.cell_xfs.len()));
-    for id in &st.cell_xfs { o.push_str(&format!("{} numFmtId=\"{}\" fontId=\"0\" fillId=\"0\" borderId=\"0\" xfId=\"0\" applyNumberFormat=\"1\"/>", tg.o("xf"), id)); }
+    for id in &st.cell_xfs {
+        if *id == 0 && st.omit_general_numfmt { o.push_str(&format!("{} fontId=\"0\" fillId=\"0\" borderId=\"0\" xfId=\"0\" applyFont=\"1\"/>", tg.o("xf"))); continue; }
+        o.push_str(&format!("{} numFmtId=\"{}\" fontId=\"0\" fillId=\"0\" borderId=\"0\" xfId=\"0\" applyNumberFormat=\"1\"/>", tg.o("xf"), id));
+    }
     o.push_str(&tg.c("cellXfs"));
     o.push_str(&tg.c("styleSheet"));
     o
